@@ -46,6 +46,7 @@ const (
 	CRoot  = iota // the root context
 	CChild        // a child context derived from root (WithValue)
 	CBack         // context.Background (never cancelled)
+	COwn          // a private context that the job itself cancels just before it ends (never cancelled before the job starts)
 )
 
 // CtxMode: how the root context gets cancelled from outside the jobs.
@@ -329,7 +330,7 @@ func GenCase(t *rapid.T, p Profile) *Case {
 			jb.Pace, jb.PArg = PAwait, jb.Deps[len(jb.Deps)-1]
 		}
 		if mixed {
-			jb.Ctx = []int{CRoot, CRoot, CChild, CChild, CBack}[uniform(t, "ctx", 5)]
+			jb.Ctx = []int{CRoot, CRoot, CChild, CChild, CBack, COwn}[uniform(t, "ctx", 6)]
 		}
 	}
 	switch cancelKind {
@@ -390,6 +391,9 @@ func GenCase(t *rapid.T, p Profile) *Case {
 	c.CustomRoot = prob(t, "customroot", 0.15)
 	if cancelCase && hooksEnabled && c.CtxMode == MNone && prob(t, "cancelatgot", 0.35) {
 		c.CancelAtGot = 1 + uniform(t, "cancelatgotn", nj)
+	}
+	if prob(t, "widecase", 0.02) {
+		makeWideCase(t, c)
 	}
 	if prob(t, "gatecase", p.PGate) {
 		c.CancelAtGot = 0 // the promptness scenario has its own cancellation
@@ -512,6 +516,40 @@ func genPlan(t *rapid.T) [][]int {
 // that the harness opens only after Wait has returned; the root context is
 // cancelled by an independent job or by a timer, so Wait can (and must)
 // return while the gated job is still parked.
+// makeWideCase turns c into a case with a large concurrency limit (beyond
+// any small constant a buffer might be capped at) and at least that many
+// dependency-free jobs in flight at once: failing jobs end early, the others
+// are still running when the failure is processed. Behaviours, contexts and
+// error flavours stay as drawn.
+func makeWideCase(t *rapid.T, c *Case) {
+	c.N = rapid.IntRange(60, 100).Draw(t, "widen")
+	nj := c.N + rapid.IntRange(0, 30).Draw(t, "wideextra")
+	tmpl := c.Jobs
+	jobs := make([]Job, nj)
+	for j := range jobs {
+		jb := tmpl[j%len(tmpl)]
+		jb.Deps = nil
+		if j >= c.N && uniform(t, "widedep", 3) == 0 {
+			jb.Deps = []int{uniform(t, "dep", j)}
+		}
+		jb.Pace, jb.PArg = PNone, 0
+		jb.EShare = 0
+		if j >= len(tmpl) && Cancels(jb.Beh) {
+			jb.Beh = BOk
+		}
+		if Fails(jb.Beh) || Cancels(jb.Beh) {
+			jb.Kind, jb.Arg = KSleep, rapid.IntRange(1, 5).Draw(t, "widefast")
+		} else {
+			jb.Kind, jb.Arg = KSleep, rapid.IntRange(10, 40).Draw(t, "wideslow")
+		}
+		jobs[j] = jb
+	}
+	c.Jobs = jobs
+	c.Shape = "wide"
+	c.ConcEnq = 0
+	c.CancelAtGot = 0
+}
+
 func makeGateCase(t *rapid.T, c *Case) {
 	c.WaitCtx = WRoot
 	c.ConcEnq = 0
@@ -581,6 +619,10 @@ func makeBarrierCase(t *rapid.T, c *Case) {
 		jb := Job{}
 		if uniform(t, "pregoexit", 3) != 0 {
 			jb.Beh = BGoexit
+		}
+		if uniform(t, "preown", 3) == 0 {
+			// the job's own context ends while it runs (Enqueue takes a context per job)
+			jb.Ctx = COwn
 		}
 		if rapid.Bool().Draw(t, "presleep") {
 			jb.Kind, jb.Arg = KSleep, rapid.IntRange(1, 10).Draw(t, "sleep")
@@ -723,6 +765,9 @@ func (c *Case) Labels() []string {
 	}
 	if c.Barrier > 0 {
 		add("barrier")
+	}
+	if c.Shape == "wide" {
+		add("wide")
 	}
 	if c.ConcEnq > 1 {
 		add("concenq")
